@@ -129,6 +129,10 @@ PROPERTIES = {
             (A.A5_overlap_guard, "C08.1 retained atoms are excluded from deletion and passed as identities"),
             (A.A4_same_frame, "C08.2 both patterns compared in the same frame"),
             (C.C_identity_rotation_single_atom, "C08.3 one-atom pattern: rotation is the identity on every path"),
+            (C.C_idx_replace, "C08 reversibility needs each match to be placed with its own rotation/anchor (parallel lists stay parallel)"),
+            (A.A3_fragment_typestate, "C08 reversibility needs the placement order rotate < translate < wrap < insert"),
+            (C.C_axis_diag, "C08 reversibility on tilted cells needs a lattice-correct wrap"),
+            (D.D4_windows, "C08 'a second search finds none' needs the search radius to cover the whole pattern"),
         ],
         "decided": "find_unchanged_atom_pairs pairs atoms only under (distance < max_delta) and (equal element); its result (replacement index -> search index) becomes "
                    "(replacement index -> structure index), is the identity map given to extend and is excluded from deletion; both patterns are in the same frame; for a "
@@ -262,6 +266,7 @@ PROPERTIES = {
             (D.D3_format_arity, "C18.2 format arities", {"modules": ["mofun.rough_uff", "mofun.cli.mofun_cli"]}),
             (E.E3_uff_table, "C18.3 domain of the formulas over all 221 types", {"part": "domain"}),
             (E.E_bond_order_leaves, "C18.4 guessed bond orders are positive literals"),
+            (B.B5_bond_order_arms, "C18 documented bond-order guesses: same-type pairs only, sibling arms agree"),
         ],
         "decided": "guess_bond_order, bond_params, angle_params, dihedral_params have identical decision lists under reversal of the type sequence; the linear/trigonal/square branch binds n and b on every path; "
                    "styles returned = styles formatted with matching arity; table columns used as divisor/sqrt argument are positive / non-negative for all rows; every guessed bond order is one of 1, 1.5, 2",
@@ -275,6 +280,7 @@ PROPERTIES = {
             (E.E_retype, "C19.4 retyping: labels, elements, masses from one sorted unique list"),
             (E.E3_uff_table, "C19.4 every UFF key's element prefix has a mass", {"part": "masses"}),
             (E.E_enumeration_shape, "C19.5 angle / dihedral enumeration shape"),
+            (B.B6_uff_key_prefix, "C19.4 UFF keys are looked up by the padded two-character element field"),
         ],
         "decided": "the three assign_* functions share one pipeline (exclusion threshold = arity, canonical key, first-seen numbering, parameters of unique keys, coefficient strings in the same order); "
                    "dihedral multiplicity key and None-removal are consistent; retyping derives labels, elements, masses and ids from one list; enumeration shapes",
@@ -286,6 +292,7 @@ PROPERTIES = {
             (A2.A18_cli_wiring, "C20 options, flows, order, suffix tables, find-only"),
             (A2.A19_attribute_discipline, "C20 attributes used on Atoms values exist"),
             (A.A7_tolerance_provenance, "C20 --atol", {"funcs": ["mofun_cli", "replace_pattern_in_structure", "find_pattern_in_structure"]}),
+            (B.B6_uff_key_prefix, "C20 --pp: UFF keys are looked up by the padded two-character element field", {"funcs": ["assign_pair_params_to_structure"]}),
         ],
         "decided": "every click option is a parameter of mofun_cli and every parameter reaches the sink it names; load < overrides < replicate < mic-replicate < pair-coeffs < find/replace < save; "
                    "suffix tables are subsets of the dispatch tables; find-only leaves the structure untouched; every attribute used on an Atoms value exists",
